@@ -63,6 +63,29 @@ def safe(s):
     return re.sub(r"[^A-Za-z0-9_.@=,-]+", "_", s)[:150]
 
 
+LIB_SRC = ["src/erasurecode.c", "src/erasurecode_helpers.c", "src/erasurecode_preprocessing.c",
+           "src/erasurecode_postprocessing.c", "src/utils/chksum/crc32.c", "src/utils/chksum/alg_sig.c",
+           "src/backends/null/null.c", "src/backends/xor/flat_xor_hd.c", "src/backends/jerasure/jerasure_rs_vand.c",
+           "src/backends/jerasure/jerasure_rs_cauchy.c", "src/backends/isa-l/isa_l_common.c",
+           "src/backends/isa-l/isa_l_rs_vand.c", "src/backends/isa-l/isa_l_rs_cauchy.c", "src/backends/shss/shss.c",
+           "src/backends/rs_vand/liberasurecode_rs_vand.c", "src/backends/phazrio/libphazr.c",
+           "src/builtin/xor_codes/xor_code.c", "src/builtin/xor_codes/xor_hd_code.c"]
+BUILTIN_SO = {"libnullcode.so.1": ["src/builtin/null_code/null_code.c"],
+              "libXorcode.so.1": ["src/builtin/xor_codes/xor_code.c", "src/builtin/xor_codes/xor_hd_code.c"],
+              "liberasurecode_rs_vand.so.1": ["src/builtin/rs_vand/rs_galois.c", "src/builtin/rs_vand/liberasurecode_rs_vand.c"]}
+SAN = ["-g", "-O1", "-fsanitize=address,undefined", "-fno-sanitize-recover=undefined", "-w"]
+
+
+def build_builtin_sos(wd, incs, dfl):
+    """the three dlopen()ed built-in code libraries, from /repo's current sources, with sanitizers"""
+    for so, srcs in BUILTIN_SO.items():
+        cmd = ["gcc", "-shared", "-fPIC"] + SAN + ["-o", os.path.join(wd, so)] + dfl + incs + [vf.repo_path(x) for x in srcs]
+        rc, out, err, w = vf.sh(cmd, cwd=wd, timeout=300)
+        if rc != 0:
+            return "building %s failed: %s" % (so, err[-800:])
+    return None
+
+
 def native_replay(job, fail, inputs, wd):
     """run the job's native replay program (real /repo sources, gcc + ASan/UBSan) on the
     counterexample inputs. returns dict(reproduced=bool|None, output=str, cmd=str)"""
@@ -77,10 +100,16 @@ def native_replay(job, fail, inputs, wd):
     defs.update(job.defines)
     defs.update(rp.get("defines", {}))
     dfl = ["-D%s=%s" % (k, v) for k, v in sorted(defs.items())]
-    srcs = [os.path.join(vf.VERIF, s) for s in rp["src"]] + [vf.repo_path(s) for s in rp.get("repo_src", job.repo_src)]
+    if rp.get("full_lib"):
+        e = build_builtin_sos(wd, incs, dfl)
+        if e:
+            return {"reproduced": None, "output": e, "cmd": ""}
+        rsrc = LIB_SRC
+    else:
+        rsrc = rp.get("repo_src", job.repo_src)
+    srcs = [os.path.join(vf.VERIF, s) for s in rp["src"]] + [vf.repo_path(s) for s in rsrc]
     exe = os.path.join(wd, "replay_prog")
-    cmd = ["gcc", "-g", "-O1", "-fsanitize=address,undefined", "-fno-sanitize-recover=undefined",
-           "-w", "-o", exe] + dfl + job.cflags + incs + srcs + rp.get("libs", ["-lz", "-ldl", "-lpthread"])
+    cmd = ["gcc"] + SAN + ["-o", exe] + dfl + job.cflags + incs + srcs + rp.get("libs", ["-lz", "-ldl", "-lpthread", "-lm"])
     rc, out, err, w = vf.sh(cmd, cwd=wd, timeout=300)
     if rc != 0:
         return {"reproduced": None, "output": "native replay build failed: " + err[-1500:], "cmd": " ".join(cmd)}
@@ -92,6 +121,7 @@ def native_replay(job, fail, inputs, wd):
         return {"reproduced": None, "output": "counterexample does not carry the inputs the replay needs", "cmd": ""}
     env = dict(os.environ)
     env["ASAN_OPTIONS"] = "detect_leaks=1:abort_on_error=0"
+    env["LD_LIBRARY_PATH"] = wd + ":" + env.get("LD_LIBRARY_PATH", "")
     env.update(rp.get("env", {}))
     rc, out, err, w = vf.sh([exe] + [str(x) for x in argv], cwd=wd, timeout=300, env=env)
     txt = (out + err)[-3000:]
